@@ -404,3 +404,70 @@ Lemma outs_store_det' m s e x : outs_l (store m s (Det e)) x = if Nat.eqb s x th
 Proof. unfold outs_l. rewrite lookup_store. destruct (Nat.eqb s x); auto. Qed.
 Lemma ins_store_det' m s e x : ins_l (store m s (Det e)) x = if Nat.eqb s x then [] else ins_l m x.
 Proof. unfold ins_l. rewrite lookup_store. destruct (Nat.eqb s x); auto. Qed.
+
+(* ---- keys of the ordered map are unique ---- *)
+Lemma store_keys {A} (m : list (site * A)) s v :
+  map fst (store m s v) = match lookup m s with Some _ => map fst m | None => map fst m ++ [s] end.
+Proof.
+  induction m as [|[k x] m IH]; cbn; auto.
+  destruct (Nat.eqb k s) eqn:E; cbn.
+  - apply Nat.eqb_eq in E; now subst.
+  - rewrite IH. destruct (lookup m s); auto.
+Qed.
+
+Lemma lookup_None_notin {A} (m : list (site * A)) s : lookup m s = None -> ~ In s (map fst m).
+Proof.
+  induction m as [|[k x] m IH]; cbn; auto.
+  destruct (Nat.eqb k s) eqn:E; [discriminate|]. intros H [->|Hin]; [rewrite Nat.eqb_refl in E; discriminate|].
+  now apply IH.
+Qed.
+
+Lemma NoDup_app_single {A} (l : list A) x : NoDup l -> ~ In x l -> NoDup (l ++ [x]).
+Proof.
+  induction l as [|y l IH]; cbn; intros Hn Hx.
+  - repeat constructor; auto.
+  - inversion Hn; subst. constructor.
+    + intros Hin. apply in_app_or in Hin. destruct Hin as [Hin|[<-|[]]]; auto.
+    + apply IH; auto.
+Qed.
+
+Lemma NoDup_store {A} (m : list (site * A)) s v : NoDup (map fst m) -> NoDup (map fst (store m s v)).
+Proof.
+  intros H. rewrite store_keys. destruct (lookup m s) eqn:E; auto.
+  apply NoDup_app_single; auto. now apply lookup_None_notin.
+Qed.
+
+Lemma In_lookup_nodup {A} (m : list (site * A)) s v : NoDup (map fst m) -> In (s, v) m -> lookup m s = Some v.
+Proof.
+  induction m as [|[k x] m IH]; cbn; [tauto|]. intros Hnd [H|H].
+  - inversion H; subst. now rewrite Nat.eqb_refl.
+  - inversion Hnd as [|? ? Hk Hnd']; subst. destruct (Nat.eqb k s) eqn:E.
+    + apply Nat.eqb_eq in E; subst. exfalso. apply Hk. apply in_map_iff. exists (s, v). auto.
+    + auto.
+Qed.
+
+Lemma NoDup_store_impl m p c t : NoDup (map fst m) -> NoDup (map fst (store_impl m p c t)).
+Proof.
+  intros H. unfold store_impl.
+  set (m1 := match lookup m p with None => store m p (Undet [] []) | Some _ => m end).
+  assert (H1 : NoDup (map fst m1)) by (unfold m1; destruct (lookup m p); auto using NoDup_store).
+  set (m2 := match lookup m1 c with None => store m1 c (Undet [] []) | Some _ => m1 end).
+  assert (H2 : NoDup (map fst m2)) by (unfold m2; destruct (lookup m1 c); auto using NoDup_store).
+  set (m3 := match lookup m2 p with Some (Undet i o) => store m2 p (Undet i (store o c t)) | _ => m2 end).
+  assert (H3 : NoDup (map fst m3)) by (unfold m3; destruct (lookup m2 p) as [[e|i o]|]; auto using NoDup_store).
+  destruct (lookup m3 c) as [[e|i o]|]; auto using NoDup_store.
+Qed.
+
+Lemma step_nodup st it st1 new : step st it = (st1, new) -> NoDup (map fst (mp st)) -> NoDup (map fst (mp st1)).
+Proof.
+  intros Hs Hn. destruct it as [s e | t | p c t]; cbn in Hs.
+  - destruct (lookup (mp st) s) as [[e'|i o]|]; [destruct (Bool.eqb _ _)| |]; inversion Hs; subst; cbn; auto using NoDup_store.
+  - destruct (t_prod t), (t_cons t); inversion Hs; subst; auto.
+  - destruct (lookup (mp st) p) as [[ep|i o]|].
+    + destruct (eval_expl ep); inversion Hs; subst; auto.
+    + destruct (lookup (mp st) c) as [[ec|i' o']|]; [destruct (eval_expl ec)| |]; inversion Hs; subst; cbn; auto using NoDup_store_impl.
+    + destruct (lookup (mp st) c) as [[ec|i' o']|]; [destruct (eval_expl ec)| |]; inversion Hs; subst; cbn; auto using NoDup_store_impl.
+Qed.
+
+Lemma Run_nodup st work st' : Run st work st' -> NoDup (map fst (mp st)) -> NoDup (map fst (mp st')).
+Proof. induction 1; auto. intros. apply IHRun. eapply step_nodup; eauto. Qed.
